@@ -81,6 +81,7 @@ type Exec struct {
 	assuming int
 	loopEntry *State
 	mute int // >0: checks are assumed, not recorded (auxiliary executions)
+	rangeIdx []types.Object // hidden index variables of the enclosing range loops (innermost last)
 }
 
 func (ex *Exec) frame() *Frame { return ex.frames[len(ex.frames)-1] }
@@ -310,9 +311,9 @@ func (ex *Exec) execIf(s *ast.IfStmt, st *State) {
 	c := ex.eval(s.Cond, st).scalar()
 	base := len(st.pc)
 	a := st.clone()
-	a.assume(c)
+	a.decide(c)
 	b := st
-	b.assume(mkNot(c))
+	b.decide(mkNot(c))
 	ex.execBlock(s.Body.List, a)
 	if s.Else != nil {
 		ex.execStmt(s.Else, b)
@@ -353,8 +354,8 @@ func (ex *Exec) execSwitch(s *ast.SwitchStmt, st *State, label string) {
 		}
 		c := mkOr(conds...)
 		br := cur.clone()
-		br.assume(c)
-		cur.assume(mkNot(c))
+		br.decide(c)
+		cur.decide(mkNot(c))
 		ex.execBlock(cc.Body, br)
 		for _, x := range cc.Body {
 			if b, ok := x.(*ast.BranchStmt); ok && b.Tok == token.FALLTHROUGH {
@@ -384,14 +385,14 @@ func (ex *Exec) execSelect(s *ast.SelectStmt, st *State, label string) {
 		cc := cc.(*ast.CommClause)
 		br := st.clone()
 		if i < n-1 {
-			br.assume(mkEq(choice, mkInt(sortInt, int64(i))))
+			br.decide(mkEq(choice, mkInt(sortInt, int64(i))))
 		} else {
 			// last case: everything else
 			var others []*Term
 			for j := 0; j < n-1; j++ {
 				others = append(others, mkNot(mkEq(choice, mkInt(sortInt, int64(j)))))
 			}
-			br.assume(mkAnd(others...))
+			br.decide(mkAnd(others...))
 		}
 		if cc.Comm != nil {
 			ex.execStmt(cc.Comm, br)
@@ -716,6 +717,15 @@ func (ex *Exec) runLoop(n ast.Node, label string, st *State, w *writes, cond fun
 			st.assume(g)
 		}
 	}
+	// vacuity guard: the invariants assumed at the loop head must be satisfiable together with the path
+	if ex.spec == 0 && ex.mute == 0 && len(invs) > 0 {
+		ex.siteSeen["cover@"+site]++
+		name := fmt.Sprintf("%s/cover:%s-head", ex.top.Short, site)
+		if n := ex.siteSeen["cover@"+site]; n > 1 {
+			name += fmt.Sprintf("#%d", n)
+		}
+		ex.obls = append(ex.obls, &Obligation{Name: name, Kind: "cover", Func: ex.top.Short, Goal: tFalse, Facts: append([]*Term(nil), st.pc...), Cover: true, Pos: ex.pos(n)})
+	}
 	// 3. one iteration (the condition is evaluated once, at the loop head)
 	var c *Term
 	if cond != nil {
@@ -729,8 +739,8 @@ func (ex *Exec) runLoop(n ast.Node, label string, st *State, w *writes, cond fun
 	it := head.clone()
 	exit := head
 	if c != nil {
-		it.assume(c)
-		exit.assume(mkNot(c))
+		it.decide(c)
+		exit.decide(mkNot(c))
 	} else {
 		exit.dead = true
 	}
@@ -817,6 +827,8 @@ func (ex *Exec) execRange(s *ast.RangeStmt, st *State, label string) {
 	valObj = bindLV(s.Value)
 	idx := types.NewVar(s.Pos(), ex.frame().pkg, "range!i", types.Typ[types.Int])
 	w.vars[idx] = true
+	ex.rangeIdx = append(ex.rangeIdx, idx)
+	defer func() { ex.rangeIdx = ex.rangeIdx[:len(ex.rangeIdx)-1] }()
 	if keyObj != nil {
 		w.vars[keyObj] = true
 	}
